@@ -45,6 +45,21 @@ thread_local! {
     static SINK: tracing::Dispatch = tracing::Dispatch::new(tracing_subscriber::fmt().with_max_level(tracing::Level::TRACE).with_writer(std::io::sink).finish());
 }
 
+/// a fmt::Write that accepts `left` bytes and then fails
+struct Bounded {
+    left: usize,
+}
+impl std::fmt::Write for Bounded {
+    fn write_str(&mut self, s: &str) -> std::fmt::Result {
+        if s.len() > self.left {
+            self.left = 0;
+            return Err(std::fmt::Error);
+        }
+        self.left -= s.len();
+        Ok(())
+    }
+}
+
 fn with_sink_subscriber<T>(f: impl FnOnce() -> T) -> T {
     SINK.with(|d| tracing::dispatcher::with_default(d, f))
 }
@@ -109,6 +124,24 @@ fn inspect(acc: &mut Acc, case: &Case, buf: &[u8], sub: &str) {
     probe!(acc, case, &format!("Display/Debug(Message){sub}"), {
         let _ = format!("{msg} {msg:?}");
     });
+    // formatting into a sink that refuses data after `cap` bytes (a fixed-size log line, a full disk):
+    // fmt must hand the error back, never panic
+    probe!(acc, case, &format!("Display/Debug into a bounded sink{sub}"), {
+        use std::fmt::Write;
+        let full = format!("{msg}").len();
+        for cap in [0usize, 1, 7, 20, 21, 40, full / 2, full.saturating_sub(1), full] {
+            let mut w = Bounded { left: cap };
+            let _ = write!(w, "{msg}");
+            let mut w = Bounded { left: cap };
+            let _ = write!(w, "{msg:?}");
+            let mut w = Bounded { left: cap };
+            let _ = write!(w, "{msg:#?}");
+            for a in msg.iter_attributes().take(6) {
+                let mut w = Bounded { left: cap.min(12) };
+                let _ = write!(w, "{a} {a:?}");
+            }
+        }
+    });
     probe!(acc, case, &format!("Display/Debug(RawAttribute){sub}"), {
         for a in msg.iter_attributes() {
             let _ = format!("{a} {a:?}");
@@ -157,6 +190,19 @@ pub fn judge(case: &Case, acc: &mut Acc) {
             } else if accepted == Some(false) {
                 acc.outcome("refused");
             }
+            // once more with the bytes at an odd address (in place behind a TCP length prefix)
+            probe!(acc, case, "from_bytes + inspection at an odd address", {
+                let first = real::parse_summary(buf);
+                let _ = real::differs_at_residue(buf, &first, |b| {
+                    if let Ok(m) = Message::from_bytes(b) {
+                        let _ = format!("{m}");
+                        for k in ALL_KINDS {
+                            let _ = real::msg_attribute(&m, k, 0);
+                        }
+                    }
+                    real::parse_summary(b)
+                });
+            });
         }
         "typed" => {
             let k = Kind::from_name(&case.text[0]).unwrap();
@@ -176,6 +222,15 @@ pub fn judge(case: &Case, acc: &mut Acc) {
             });
             probe!(acc, case, "Display(RawAttribute)", {
                 let _ = format!("{raw} {raw:?}");
+            });
+            probe!(acc, case, &format!("from_raw::<{}> at odd addresses", k.name()), {
+                let _ = real::differs_at_residue(buf, &true, |b| {
+                    let r = RawAttribute::new(AttributeType::new(code), b);
+                    if let Ok(t) = real::from_raw_typed(k, &r) {
+                        let _ = t.display();
+                    }
+                    true
+                });
             });
             // the same under a TRACE subscriber (log statements only format their arguments then)
             with_sink_subscriber(|| {
